@@ -75,6 +75,13 @@ def cases(tier, rnd):
             for v in (b"\xff\xff", b"\0\0", b"\xff\x7f", b"\0\x80"):
                 b = bytearray(valid)
                 if o + 2 <= len(b): b[o:o + 2] = v; cs.append(with_replies(rnd, kind, [login, bytes(b)]))
+        # whole groups of fields at zero / at all ones together, with the state byte either way (a device just switched on by hand: on, no timer,
+        # nothing elapsed, no power drawn yet; a device that reports nothing it knows)
+        for st in (0, 1):
+            for fill in (0, 0xff):
+                for lo, hi in ((89, 101), (89, 97), (93, 101), (77, 101), (76, 110)):
+                    b = bytearray(valid)
+                    if hi <= len(b): b[lo:hi] = bytes([fill]) * (hi - lo); b[75] = st; cs.append(with_replies(rnd, kind, [login, bytes(b)]))
         for o in (89, 93, 97):          # time fields at the edges of what datetime.time accepts
             for secs in (86399, 86400, 2 ** 31 - 1, 2 ** 32 - 1):
                 b = bytearray(valid); b[o:o + 4] = secs.to_bytes(4, "little"); cs.append(with_replies(rnd, kind, [login, bytes(b)]))
